@@ -165,6 +165,40 @@ def A():
     return Program(m, ['e0', 'e1', 'e2'])
 
 
+def Aq():
+    """A whose transition into A1 posts an event that A1 itself would handle: the completion chain out of A1 must run before
+    the posted (queued) event is dispatched, which then meets the state the chain ended in"""
+    m = Machine('Aq', [['A0', 'A1', 'A2', 'A3', 'A4']], [],
+                [Row('A0', 'e0', 'A1', act=('send', 1, [('e1', 'p')])),
+                 Row('A1', None, 'A2', act=2, guard=1),
+                 Row('A1', None, 'A3', act=3, guard=2),
+                 Row('A2', None, 'A4', act=4),
+                 Row('A3', 'e1', 'A0', act=5),
+                 Row('A4', 'e1', 'A0', act=6),
+                 Row('A1', 'e1', 'A0', act=7),
+                 Row('A1', 'e2', None, act=8)])
+    p = Program(m, ['e0', 'e1', 'e2'])
+    p.pay_exclude = [-2]     # the posted event carries P+1; -1 is what behaviours log for the completion event
+    return p
+
+
+def Xc():
+    """entry point into a two-region submachine whose other region's initial state has a completion transition: the completion
+    pass of the submachine entry runs before the inner transition out of the entry pseudo state (same event)"""
+    sub = Machine('SubC', [['S1', 'S3', 'Pe'], ['T1', 'T2']],
+                  [St('Pe', kind='entry', region=0)],
+                  [Row('Pe', 'e4', 'S3', act=2, guard=1),
+                   Row('T1', None, 'T2', act=3, guard=2),
+                   Row('S3', 'e5', 'S1', act=4),
+                   Row('T2', 'e5', 'T1', act=5)])
+    m = Machine('Xc', [['A', 'SubC']],
+                [St('SubC', kind='sub', sub=sub)],
+                [Row('A', 'e1', 'SubC', act=10),
+                 Row('A', 'e4', ('entry', 'SubC', 'Pe'), act=13),
+                 Row('SubC', 'e7', 'A', act=15)])
+    return Program(m, ['e1', 'e4', 'e5', 'e7'])
+
+
 def Ai():
     """completion from the initial state at start() and inside a submachine"""
     sub = Machine('SubA', [['C0', 'C1', 'C2']], [],
@@ -390,7 +424,7 @@ def _pol(base, pol):
     return p
 
 
-CATALOG = {f.__name__: f for f in (Q, Q1, Q2, D, Dr, Da, K, Kd, FL3, G1, F1, R2, R3, H2, H3, X, HIn, HIa, HIs, A, Ai, T, Tq, FL)}
+CATALOG = {f.__name__: f for f in (Q, Q1, Q2, D, Dr, Da, K, Kd, FL3, G1, F1, R2, R3, H2, H3, X, HIn, HIa, HIs, A, Aq, Xc, Ai, T, Tq, FL)}
 
 POLICIES = ['after_entry', 'after_transition_action', 'after_exit', 'before_transition']
 for _b in (F1, R2, H2, FL):
